@@ -22,6 +22,10 @@ func (k Keeper) verifySignature(ctx sdk.Context, owner string, proposal Proposal
 	}
 
 	var querySidDocument = func(versionId string) (*sid.SidDocument, error) {
+		// only key documents of the owner's own version history may vouch for it
+		if !k.did.IsSidDocumentOfDid(ctx, owner, versionId) {
+			return nil, nil
+		}
 		doc, found := k.did.GetSidDocument(ctx, versionId)
 		if found {
 			var keys = make([]*sid.PubKey, 0)
